@@ -153,7 +153,7 @@ class Ctx:
             print("[%s] %-9s instances=%d obligations=%d discharged=%d violations=%d  %s" %
                   (self.pid, r.rid, len(r.instances), r.obligations, r.discharged, len(r.viol), r.text[:90]))
         for a in _applied():
-            print("NOTE: %s: function %s located as the reference tree's %s by its structure (rename)" % a)
+            print("NOTE: %s: %s is the reference tree's %s (located by its structure: a rename)" % a)
         for l in lines:
             print(l)
         for k in stale:
